@@ -14,7 +14,7 @@ RULE = ("seeded gen_coords runs with dense, tiny, cubic, non-cubic and density-d
 ASSUMPTIONS = wa.ASSUMPTIONS + ["where twice the step length reaches the smallest box edge the literal minimum-image reading "
                                 "is undefined; there the oracle demands that some periodic image of the displacement has the step length"]
 REAL_VS_STUB = wa.REAL_VS_STUB
-PROBES = wa.PROBES + ["bending_constants", "ring_soup", "placed_interacting_across_boundary", "step_longer_than_half_box", "user_grid"]
+PROBES = wa.PROBES + ["size_ratio_above_4", "bending_constants", "ring_soup", "placed_interacting_across_boundary", "step_longer_than_half_box", "user_grid"]
 PROFILE = {"box_modes": ["dense", "dense", "tiny", "cubic", "noncubic", "density"], "p_gs": 0.5, "p_sf": 0.5, "p_mf": 0.5,
            "faults": ["step", "start", "overlap"], "n_entries": (1, 4), "max_molecules": 12,
            "shapes": ["single", "linear", "linear", "star", "comb", "tree", "ring"]}
@@ -50,6 +50,18 @@ def gen_job(verif_seed, tier, index):
         job["opts"].pop("density", None)
         job["opts"].update(topgen.choose_box(g, spec, {"box_modes": ["cubic", "noncubic"]}))
         job["ring_soup"] = True
+    if not job.get("tiny_box") and not job.get("ring_soup") and len(job["spec"]["restypes"]) >= 2 and g.random() < 0.15:
+        # very different residue sizes (given as [ volumes ]): the cut-off is twice the LARGEST size whatever is placed
+        from gen import topgen
+        names = sorted(job["spec"]["restypes"])
+        big = g.choice(names)
+        job["bld_volumes"] = {n: (round(g.uniform(1.2, 1.7), 2) if n == big else round(g.uniform(0.2, 0.3), 2)) for n in names}
+        job["user_volumes"] = dict(job["bld_volumes"])
+        nres = topgen.n_residues(job["spec"])
+        edge = round(max(4.0, (nres * 1.3 ** 3) ** (1 / 3)), 3)
+        job["opts"].pop("density", None)
+        job["opts"]["box"] = [edge, edge, edge]
+        job["size_ratio"] = True
     if g.random() < 0.25:
         jobgen.add_user_grid(job, g)
     if g.random() < 0.2:
@@ -69,6 +81,8 @@ def _tag(job, res):
         res["probes"]["ring_soup"] = 1
     if job.get("bld_bending"):
         res["probes"]["bending_constants"] = 1
+    if job.get("size_ratio"):
+        res["probes"]["size_ratio_above_4"] = 1
     return bool(res["probes"].get("placed_with_neighbours_in_cutoff"))
 
 
